@@ -166,3 +166,13 @@ func readValue(u state.UserAccountHandler, key []byte) ([]byte, error) {
 }
 
 func rep(b byte, n int) []byte { return bytes.Repeat([]byte{b}, n) }
+
+// Step is one record of a TLC-generated behaviour (vtrace.Step plus `exp`, the state the property demands where
+// it differs from the state the specification reaches, i.e. under KnownDefects)
+type Step struct {
+	A   string                 `json:"a"`
+	In  map[string]interface{} `json:"in"`
+	Out map[string]interface{} `json:"out"`
+	St  map[string]interface{} `json:"st"`
+	Exp map[string]interface{} `json:"exp"`
+}
